@@ -1,0 +1,110 @@
+//go:build verif
+
+package actionlint
+
+import (
+	"fmt"
+	"hash/fnv"
+	"os"
+	"strconv"
+	"strings"
+	"sync"
+	"sync/atomic"
+	"time"
+)
+
+// This file exists only with the "verif" build tag. verifPoint records an event of the concurrent
+// machinery (process pool, per-file checks, cache writes) into a trace which the verification
+// harness checks against a trace specification, and optionally sleeps for a seeded, per-point
+// duration to widen the set of interleavings. It never touches the state it observes.
+
+// VerifEvent is one recorded event.
+type VerifEvent struct {
+	Seq  int64
+	Name string
+	Arg  string
+}
+
+var verifTrace struct {
+	on       int32 // atomic
+	mu       sync.Mutex
+	seq      int64
+	events   []VerifEvent
+	file     *os.File
+	seed     uint64
+	maxDelay int // microseconds; 0 = no delays
+	only     string
+}
+
+func init() {
+	// The CLI binary is traced through the environment.
+	if p := os.Getenv("ACTIONLINT_VERIF_TRACE_FILE"); p != "" {
+		f, err := os.OpenFile(p, os.O_CREATE|os.O_WRONLY|os.O_APPEND, 0o644)
+		if err == nil {
+			verifTrace.file = f
+			atomic.StoreInt32(&verifTrace.on, 1)
+		}
+	}
+	if d := os.Getenv("ACTIONLINT_VERIF_DELAY"); d != "" {
+		// "<seed>:<max microseconds>[:<name prefix>]"
+		parts := strings.SplitN(d, ":", 3)
+		if len(parts) >= 2 {
+			s, _ := strconv.ParseUint(parts[0], 10, 64)
+			m, _ := strconv.Atoi(parts[1])
+			verifTrace.seed = s
+			verifTrace.maxDelay = m
+			if len(parts) == 3 {
+				verifTrace.only = parts[2]
+			}
+			atomic.StoreInt32(&verifTrace.on, 1)
+		}
+	}
+}
+
+// VerifTraceStart starts recording events in memory. When maxDelayMicros > 0, every point sleeps
+// for a duration in [0, maxDelayMicros] determined by (seed, name, arg, occurrence); when
+// onlyPrefix is not empty only points whose name has the prefix are delayed.
+func VerifTraceStart(seed uint64, maxDelayMicros int, onlyPrefix string) {
+	verifTrace.mu.Lock()
+	verifTrace.events = nil
+	verifTrace.seq = 0
+	verifTrace.seed = seed
+	verifTrace.maxDelay = maxDelayMicros
+	verifTrace.only = onlyPrefix
+	verifTrace.mu.Unlock()
+	atomic.StoreInt32(&verifTrace.on, 1)
+}
+
+// VerifTraceStop stops recording and returns the recorded events in order.
+func VerifTraceStop() []VerifEvent {
+	atomic.StoreInt32(&verifTrace.on, 0)
+	verifTrace.mu.Lock()
+	ev := verifTrace.events
+	verifTrace.events = nil
+	verifTrace.maxDelay = 0
+	verifTrace.mu.Unlock()
+	return ev
+}
+
+func verifPoint(name, arg string) {
+	if atomic.LoadInt32(&verifTrace.on) == 0 {
+		return
+	}
+	verifTrace.mu.Lock()
+	verifTrace.seq++
+	seq := verifTrace.seq
+	if verifTrace.file != nil {
+		fmt.Fprintf(verifTrace.file, "%d\t%s\t%s\n", seq, name, arg)
+	} else {
+		verifTrace.events = append(verifTrace.events, VerifEvent{seq, name, arg})
+	}
+	max := verifTrace.maxDelay
+	seed := verifTrace.seed
+	only := verifTrace.only
+	verifTrace.mu.Unlock()
+	if max > 0 && (only == "" || strings.HasPrefix(name, only)) {
+		h := fnv.New64a()
+		fmt.Fprintf(h, "%d|%s|%s", seed, name, arg)
+		time.Sleep(time.Duration(h.Sum64()%uint64(max+1)) * time.Microsecond)
+	}
+}
